@@ -376,6 +376,15 @@ func (x *XRefParser) parseXRefStream() (*XRefTable, error) {
 		}
 	}
 
+	if len(index)%2 != 0 {
+		return nil, fmt.Errorf("invalid /Index array length: %d (expected pairs)", len(index))
+	}
+	for i := 0; i < len(index); i += 2 {
+		if index[i] < 0 || index[i+1] < 0 {
+			return nil, fmt.Errorf("invalid /Index subsection [%d %d]", index[i], index[i+1])
+		}
+	}
+
 	// Parse /W array - field widths [type field1 field2]
 	wObj := stream.Dict.Get("W")
 	if wObj == nil {
@@ -395,7 +404,13 @@ func (x *XRefParser) parseXRefStream() (*XRefTable, error) {
 		if !ok {
 			return nil, fmt.Errorf("invalid /W element type: %T", val)
 		}
+		if intVal < 0 || intVal > 8 {
+			return nil, fmt.Errorf("invalid /W element: %d (expected 0..8)", intVal)
+		}
 		w[i] = int(intVal)
+	}
+	if w[0]+w[1]+w[2] == 0 {
+		return nil, fmt.Errorf("invalid /W array: all field widths are zero")
 	}
 
 	// Parse entries from binary data
